@@ -154,8 +154,8 @@ func (t *Template) peekNonSpace() (token item) {
 // errorf formats the error and terminates processing.
 func (t *Template) errorf(format string, args ...interface{}) {
 	t.Root = nil
-	format = fmt.Sprintf("template: %s:%d: %s", t.ParseName, t.lex.lineNumber(), format)
-	panic(fmt.Errorf(format, args...))
+	// (the name is data: a '%' in it must not be read as a formatting verb)
+	panic(fmt.Errorf("template: %s:%d: %s", t.ParseName, t.lex.lineNumber(), fmt.Sprintf(format, args...)))
 }
 
 // error terminates processing.
